@@ -223,6 +223,7 @@ def alias_rule(chk, db):
 
 META_EXTRA = 'ALIAS (value parameter read before elements are shifted); SLOTS-W (grown slots are written); POST (the size every mutating member leaves equals its specification; callees by their specification; counting loops summarised); PARAM (every named parameter is consulted).'
 META = (META[0] + " " + META_EXTRA, META[1])
+META = (META[0] + ' SIB (cv/ref-qualified overloads of one member agree); INITFORM (forwarded packs direct-non-list-initialise).', META[1])
 
 
 def run(chk, tier):
